@@ -27,7 +27,7 @@ def run(ctx):
                 'undefined, unimplemented-extension rows undefined or NotImplementedError. The witness plus N solver-generated members of '
                 'each region are executed (N=24 quick, 400 thorough), and random words are compared directly (independent of '
                 'the enumeration). For defined rows every reference operand (vf/ref/sem.py decode stage) is compared with the attributes '
-                'of the object from_bitarray returns, under several processor states. History independence: one long-lived instance decodes a word in ARM '
+                'of the object from_bitarray returns, under several processor states. Field corners: for every reference row, words in which one field takes a corner value (0, 1, max, max-1, single bits) and the others are random. History independence: one long-lived instance decodes a word in ARM '
                 'state, the same numeric word in Thumb state and again in ARM state; each answer must equal the stateless decoder. Non-trivial: the reference row is a defined '
                 'instruction; distinct = distinct word.')
     ctx.technique = 'concolic path enumeration as a generator + differential testing against reference encoding tables'
@@ -38,6 +38,7 @@ def run(ctx):
     tasks = [(chk.region_shard, ('vf.props.c06:SPEC', i, ns, ctx.shard_seed(i), ctx.n(24, 400))) for i in range(ns)]
     tasks += [(chk.random_shard, ('vf.props.c06:SPEC', ctx.shard_seed(100 + i), ctx.n(6000, 150000))) for i in range(16)]
     tasks += [(chk.history_shard, ('vf.props.c06:SPEC', 'vf.props.c07:SPEC32', ctx.shard_seed(300 + i), ctx.n(3000, 60000))) for i in range(4)]
+    tasks += [(chk.corner_shard, ('vf.props.c06:SPEC', i, 16, ctx.shard_seed(500 + i), ctx.n(4, 40))) for i in range(16)]
     ctx.pmap(_dispatch, tasks)
     ctx.acc.exhaustive = True
     ctx.acc.extra['exhaustive_part'] = 'class selection over all 2^32 words via the joint region partition'
